@@ -1,6 +1,6 @@
 (* C03 - a value of the wrong JSON type is rejected; null is accepted where allowed.
    Statements only; every proof is `exact <lemma>`; Print Assumptions under each. *)
-From GJS Require Import Base Regex Schema GoType Gen Exec Valid ExecP GenP CoreP.
+From GJS Require Import Base Regex Schema GoType Gen Exec Valid ExecP GenP CoreP LevelP NestedP.
 
 (* scalar Go types (string, bool, float64, every int kind, the format types) accept exactly their
    own JSON type; an integer kind accepts only integral numbers written as integer literals within
@@ -58,3 +58,14 @@ Proof.
   - apply dec_base_type; [reflexivity|discriminate|reflexivity].
   - eapply is_step; [apply in_slice; right; left; reflexivity|]. eapply is_step; [apply in_ptr; discriminate|]. apply is_refl.
 Qed.
+
+(* end to end, at every position the nested theorem covers (C02_nested_objects_exact: "accepted iff valid" includes "a value of another JSON
+   type is rejected"): instance for map values - {labels: map of strings (required)} on a map of strings, a map with a number, a string in
+   place of the map, the empty map and the empty object *)
+Theorem C03_map_values_inhabited :
+  exists t b, gen (fun s => s) (mkCfg false false) [] (fuelG 0 3) MDeclared None false ex_map_obj [82]%N = Done (t, b) /\
+    (forall kv, In kv ex_map_docs ->
+       is_ok (dec (fun _ _ => true) [] (fuelD 0 0) t (JObj kv)) = valid (fun _ _ => true) [] (fuelV 0 0) ex_map_obj (JObj kv)) /\
+    map (fun kv => valid (fun _ _ => true) [] (fuelV 0 0) ex_map_obj (JObj kv)) ex_map_docs = [true; false; false; true; false].
+Proof. exact map_inhabited. Qed.
+Print Assumptions C03_map_values_inhabited.
